@@ -282,7 +282,7 @@ class Spec:
             return None if self.open else self.image()
         if w[0] == 'trav':
             return self.show(self.trav(w[1], self.root), False)
-        if w[0] == 'iter':
+        if w[0] in ('iter', 'riter'):
             seq = self.trav(w[1], self.root); self.post = w[1] == 'post'
             if len(w) > 2:
                 k = max(int(w[2]), 1)
@@ -379,7 +379,7 @@ def valid(h):
     s = Spec()
     for line in h:
         w = line.split()
-        if w[0] not in ('reset', 'tree', 'lists', 'owns', 'image', 'trav', 'iter', 'resume', 'complete', 'viz', 'dot', 'leaf', 'free', 'freel', 'freer'):
+        if w[0] not in ('reset', 'tree', 'lists', 'owns', 'image', 'trav', 'iter', 'riter', 'resume', 'complete', 'viz', 'dot', 'leaf', 'free', 'freel', 'freer'):
             return False
         if w[0] == 'leaf' and not (len(w) == 2 and 0 <= int(w[1]) < s.n and not s.dead[int(w[1])]):
             return False
@@ -389,10 +389,10 @@ def valid(h):
             return False
         if s.open and w[0] not in ('image', 'resume', 'complete'):
             return False
-        if w[0] in ('iter', 'trav') and w[1] == 'list':
+        if w[0] in ('iter', 'riter', 'trav') and w[1] == 'list':
             if s.root is not None and spine_kind(s, s.root) is None:
                 return False
-        if w[0] == 'iter' and len(w) > 2 and int(w[2]) < 1:
+        if w[0] in ('iter', 'riter') and len(w) > 2 and int(w[2]) < 1:
             return False
         if w[0] in ('freel', 'freer') and not (0 <= int(w[1]) < s.n and not s.dead[int(w[1])]):
             return False
@@ -486,6 +486,32 @@ def list_history(rng, m, leaning, bushy):
     if total:
         h += [f'iter list {rng.range(1, total + 1)}', 'image', 'resume', 'image']
     h += rng.choice([['iter in', 'image'], ['iter post', 'image'], ['free', 'image'], []])
+    return h
+
+
+def reuse_history(rng, shape=None, m=None, leaning='left'):
+    """one bintree_iterator_t used for several iterations one after the other (`riter`): completed ones, ones cut short and
+    finished with bintree_iterate_complete or resumed, of every order - state a previous use left in the object must not
+    change the next iteration"""
+    if m is not None:
+        h = list_history(rng, m, leaning, bushy=rng.chance(1, 2))[:2]       # tree + lists lines of a list spine
+        orders = ['list', 'in', 'post', 'pre', 'list']
+    else:
+        n = size(shape)
+        tree, _ = label(shape, rng.shuffle(list(range(n))) if rng.chance(1, 3) else None)
+        h = [tree_line(tree, n, pick_align(rng, n, rng.choice([None, 2, 'mixed'])))]
+        orders = ['in', 'post', 'pre']
+    s = Spec_for(h)
+    first = rng.choice(orders)
+    h += [f'iter {first}', 'image']
+    for _ in range(rng.range(2, 5)):
+        o = rng.choice(orders)
+        total = len(s.trav(o, s.root))
+        if total and rng.chance(1, 3):
+            h += [f'riter {o} {rng.range(1, total)}', rng.choice(['resume', 'complete']), 'image']
+        else:
+            h += [f'riter {o}', 'image']
+    h += rng.choice([['free', 'image'], []])
     return h
 
 
@@ -660,6 +686,15 @@ def gen(ctx, rng):
             hs.append(nested_history(rng, s, None)); tags.append('nested-free')
     for _ in range(10 if quick else 150):
         hs.append(nested_history(rng, random_shape(rng, rng.range(6, 30)), None)); tags.append('nested-free')
+    # one iterator object re-used for several iterations (list spines and ordinary shapes)
+    for m in list(range(1, 7)) + [rng.range(7, 30)]:
+        for leaning in ('left', 'right'):
+            hs.append(reuse_history(rng, m=m, leaning=leaning)); tags.append('iterator-reuse')
+    for n in range(1, 6):
+        for sh in shapes(n):
+            hs.append(reuse_history(rng, shape=sh)); tags.append('iterator-reuse')
+    for _ in range(10 if quick else 200):
+        hs.append(reuse_history(rng, shape=random_shape(rng, rng.range(6, 40)))); tags.append('iterator-reuse')
     # list spines
     for m in list(range(0, 9)) + [rng.range(9, 40), rng.range(40, 90)]:
         for leaning in ('left', 'right'):
